@@ -119,7 +119,7 @@ def main(args):
                "keywords and arbitrary names outside the draft's vocabulary and consulted siblings, and exports the expected "
                "bag of every extended schema, replayed against iter_errors. code side: random deep schemas with 1-3 foreign "
                "keywords inserted at random (sub)schema positions; the errors before and after are recorded and TLC checks "
-               "that the second schema is an insertion of inert members and that the bags are equal. Non-trivial: the "
+               "that the second schema is an insertion of inert members and that the bags are equal; the id/$id half: Extract-machine scenarios with the other drafts' id keyword between the root id and a relative reference. Non-trivial: the "
                "instance yields at least one error; distinct by (draft, schema, extended schema, instance).")
     c05._INST = None
 
@@ -130,13 +130,44 @@ def main(args):
             if not x["ood"]:
                 ck.count((d, repr(S), i), bool(x["errs"]))
         for kind, i, got, want in probs:
-            if kind in ("not_accepted", "raises"):
+            if kind == "not_accepted":
                 ck.skipped += 1
+                continue
+            if kind == "raises":      # the schema without the foreign keyword validates fine: a crash is a behaviour change
+                ck.violation("foreign_keyword_makes_validation_raise", {"draft": d, "schema": S, "exception": got,
+                                                                        "instance": c05._INST[i] if i is not None else None})
                 continue
             ck.violation("foreign_changes_errors", {"draft": d, "schema": S, "instance": c05._INST[i], "observed_errors": got,
                                                     "spec_errors": want, "source": "MC_Schema foreign export"})
     tasks = c05.run_universe(ck, args, "foreign" if quick else "foreignT", handle)
     tasks += c05.run_universe(ck, args, "refsib", handle)      # keywords next to a $ref (incl. "$ref": "" and "#")
+    # second half of the property: `id` establishes a base URI only in drafts 3/4 and `$id` only in drafts 6/7 -- the
+    # Extract machine's arrangement "otherid" puts the OTHER id keyword between the root and a relative reference
+    from harness import c02, calibrate as _cal
+    from harness.encode import dec as _dec, dec_str as _dec_str
+    c02._setup()
+    wd = tlc.workdir("c10ref")
+    lib = _cal.write_lib(wd + "/lib.json")
+    jobs = [dict(module="mc/MC_Ref.tla", cfg="mc/MC_Ref_otherid_d%d.cfg" % d, workers=4, timeout=3000, heap="4g",
+                 env={"LIB_FILE": lib}) for d in DRAFTS]
+    results = tlc.run_many(jobs, parallel=4)
+    tlc.cleanup("c10ref")
+    for job, r in zip(jobs, results):
+        if r.violation:
+            raise tlc.MachineryFailure("the specification itself is not transparent: %s %s" % (job["cfg"], r.violation))
+        ck.add_tlc(r)
+        d = int(job["cfg"].split("_d")[1][0])
+        for ex in r.exports:
+            if "instances" in ex:
+                c02._INST = [_dec(x) for x in ex["instances"]]
+                continue
+            probs, _ = c02.replay_one((d, ex))
+            ck.replayed += 1
+            ck.count((d, "otherid", repr(ex["S"])), True)
+            for kind, i, info in probs:
+                ck.violation("other_drafts_id_keyword_changes_base", {"draft": d, "schema": _dec(ex["S"]),
+                             "store": {_dec_str(m["u"]): _dec(m["doc"]) for m in ex["more"]}, "instance": c02._INST[i],
+                             "problem": kind, "observed": info, "source": "MC_Ref otherid"})
     ck.exhaustive = True
     ck.sample({"universe_schema_with_foreign_keyword": tasks[len(tasks) // 2][1], "draft": tasks[len(tasks) // 2][0]})
 
